@@ -103,7 +103,7 @@ def sweep(ctx, N):
 
 def run(ctx):
     import numdifftools as nd
-    proof_stage(ctx, 'Props/C01.v')
+    proof_stage(ctx, ['Props/C01.v', 'Props/C01b.v'])
     rng = ctx.rng(1)
     cases, descs = [], []
     skipped = {}
@@ -170,6 +170,6 @@ def run(ctx):
     sweep(ctx, ctx.n(25, 400) if not ctx.broken else 150)
     ctx.assumptions += ['PARTIAL: proved = exactness of the whole pipeline on estimates of the modelled form (hence on polynomials, via C06/C07/C13) and n = 0; NOT proved = the accuracy envelope for non-polynomial analytic f (explored by the sweep against mpmath Taylor coefficients, with an envelope calibrated on the unchanged tree)',
                         'difference quotients, pinv rows and h**n are recorded from the run (stencils: C05/C06)']
-    return ctx.finish(level='proof', checker_cmd='make -C coq Props/C01.vo + coqc build/cases/C01_*.v',
+    return ctx.finish(level='proof', checker_cmd='make -C coq Props/C01.vo Props/C01b.vo + coqc build/cases/C01_*.v',
                       rule='pipeline: 7 functions x 5 methods x n 0..6(2) x order 1..8 x default/Min/Max/scalar steps, scalar x over 1e-3..1e2; sweep: random expression programs over the property\'s operator set vs mpmath, methods x n x orders 2,4, scalar and array x; '
                            'distinct = (kind, method, n, generator) combinations hit')
